@@ -989,3 +989,7 @@ UNIT_META["column_admin"]["functions"] = UNIT_META["column_admin"]["functions"] 
 UNIT_META["column_admin"]["assumes"] = UNIT_META["column_admin"]["assumes"] + ["evidence encoding: the uninterpreted relation `agrees(options, metadata)` is established only by an Ok of Options::load_and_validate_metadata (U35) and is required by the contract of Log::open (which deletes empty / truncated log files); flock through a function-pointer map_err is a contract (listed rewrite)"]
 PROPS["C17"]["claim"] = PROPS["C17"]["claim"] + " Order of DbInner::open (Verus, fragment): Log::open -- which deletes log files it finds empty or shorter than a record header -- runs only after Options::load_and_validate_metadata accepted the requested options, so an open that is refused for disagreeing options has not touched a log file."
 PROPS["C17"]["does_not_cover"] = [x.replace("files touched by DbInner::open before validation (directory, lock file)", "the directory and the lock file, which DbInner::open creates before validation") for x in PROPS["C17"]["does_not_cover"]]
+
+# ---------------------------------------------------------------- U22 also serves C14 (an old index dropped before all of it was migrated orphans its values)
+PROPS["C14"]["kani_units"] = list(PROPS["C14"]["kani_units"]) + ["U22"]
+PROPS["C14"]["claim"] = PROPS["C14"]["claim"] + " Growth bookkeeping (Kani, bounded: two queued older indexes): trigger_reindex queues the old index behind the ones already waiting and leaves the progress of the migration under way alone; drop_index removes the migrated table and starts the next one from its first chunk -- an old table dropped before all of it was moved would leave its values without an index entry."
